@@ -97,14 +97,26 @@ func ParseDeviceCodeClientSecret(wwwAuthenticate string) string {
 // WWW-Authenticate header value. Returns an empty string if not found.
 func parseQuotedParam(header, param string) string {
 	key := param + `="`
-	idx := strings.Index(header, key)
-	if idx == -1 {
-		return ""
+	from := 0
+	for {
+		i := strings.Index(header[from:], key)
+		if i == -1 {
+			return ""
+		}
+		idx := from + i
+		// A parameter name begins at the start of the header or right after a
+		// separator. Without this check "client_id" also matches inside
+		// "device_code_client_id" (and "client_secret" inside
+		// "device_code_client_secret"), and a name that merely ends a quoted
+		// value (a URL ending in "client_id=") fuses with the closing quote.
+		if idx == 0 || header[idx-1] == ' ' || header[idx-1] == ',' {
+			rest := header[idx+len(key):]
+			end := strings.Index(rest, `"`)
+			if end == -1 {
+				return ""
+			}
+			return rest[:end]
+		}
+		from = idx + 1
 	}
-	rest := header[idx+len(key):]
-	end := strings.Index(rest, `"`)
-	if end == -1 {
-		return ""
-	}
-	return rest[:end]
 }
